@@ -438,6 +438,27 @@ def real_hdr(axml, data, start):
 EVN = {1: "end", 2: "start", 3: "endtag", 4: "text"}
 
 
+class Guard:
+    """in-process time limit for the correspondence calls (pure-Python loops): a call that does not return
+    within 3 s is reported as `hang`; after three hangs the stream stops calling the real code"""
+
+    def __init__(self, ck, what):
+        self.ck, self.what, self.hangs = ck, what, 0
+
+    def __call__(self, fn, case):
+        from harness.props.c06 import time_limit, Hang
+        if self.hangs >= 3:
+            return None
+        try:
+            with time_limit(3.0):
+                return fn()
+        except Hang:
+            self.hangs += 1
+            self.ck.fail(case, f"{self.what} does not return (3 s, {case.get('size', '?')} bytes)", None,
+                         "a result or an error", "no return")
+            return "hang"
+
+
 def real_axml_walk(axml, data):
     try:
         ap = axml.AXMLParser(data)
@@ -509,6 +530,7 @@ def tie(ck, drv):
     from androguard.core import axml, dex
     rng = ck.rng
     # ARSCHeader
+    g_hdr, g_walk, g_dbg, g_hid = (Guard(ck, w) for w in ("ARSCHeader", "AXMLParser next()", "DebugInfoItem", "HiddenApiClassDataItem"))
     reqs, real = [], []
     for _ in range(6000 if ck.quick else 60000):
         n = rng.choice((0, 3, 7, 8, 9, 12, 16, 24, 40))
@@ -524,8 +546,11 @@ def tie(ck, drv):
             data = pre + chunk(rng.choice((0x0001, 0x0003, 0x0100, 0x0101, 0x0102, 0x017f, 0x0180, 0x0200, 0)), hs, sz) + \
                 bytes(rng.choice((0, 4, 8, 16)))
         start = rng.choice((0, 0, 1, 2, len(data) // 2, max(0, len(data) - 8), len(data), len(data) + 3))
+        r = g_hdr(lambda: real_hdr(axml, data, start), {"op": "hdr", "start": start, "hex": data.hex(), "size": len(data)})
+        if r is None:
+            break
         reqs.append(f"hdr {start} {hexs(data)}")
-        real.append(real_hdr(axml, data, start))
+        real.append(r)
     ck.compare("arsc-header", reqs, real, drv.ask(reqs))
     kinds = {}
     for r in real:
@@ -535,7 +560,12 @@ def tie(ck, drv):
     nskip = 0
     for _ in range(3000 if ck.quick else 40000):
         data = gen_chunk_stream(rng)
-        st, line = real_axml_walk(axml, data)
+        r = g_walk(lambda: real_axml_walk(axml, data), {"op": "axml-walk", "hex": data.hex(), "size": len(data)})
+        if r is None:
+            break
+        if r == "hang":
+            continue
+        st, line = r
         if st is None:
             nskip += 1
             continue
@@ -563,13 +593,19 @@ def tie(ck, drv):
         pos = rng.choice((0, 0, 0, 1, 2))
         b = io.BufferedReader(io.BytesIO(data))
         b.seek(pos)
-        try:
-            it = dex.DebugInfoItem(b, cm)
-            r = f"ok {len(it.get_bytecodes())}"
-        except struct.error:
-            r = "err"
-        except Exception as e:  # noqa
-            r = "other:" + type(e).__name__
+        def call_dbg():
+            try:
+                it = dex.DebugInfoItem(b, cm)
+                return f"ok {len(it.get_bytecodes())}"
+            except struct.error:
+                return "err"
+            except MemoryError:
+                return "hang"
+            except Exception as e:  # noqa
+                return "other:" + type(e).__name__
+        r = g_dbg(call_dbg, {"op": "dbg", "pos": pos, "hex": data.hex(), "size": len(data)})
+        if r is None:
+            break
         reqs.append(f"dbg {pos} {hexs(data)}")
         real.append(r)
     ck.compare("debug-info-item", reqs, real, drv.ask(reqs))
@@ -588,13 +624,17 @@ def tie(ck, drv):
         off = rng.choice((0, 0, 0, 1, 4))
         b = io.BufferedReader(io.BytesIO(data))
         b.seek(off)
-        try:
-            it = dex.HiddenApiClassDataItem(b, cm)
-            r = f"ok {len(it.flags)} {b.tell()}"
-        except (struct.error, ValueError):
-            r = "err"
-        except Exception as e:  # noqa
-            r = "other:" + type(e).__name__
+        def call_hid():
+            try:
+                it = dex.HiddenApiClassDataItem(b, cm)
+                return f"ok {len(it.flags)} {b.tell()}"
+            except (struct.error, ValueError):
+                return "err"
+            except Exception as e:  # noqa
+                return "other:" + type(e).__name__
+        r = g_hid(call_hid, {"op": "hidden", "pos": off, "hex": data.hex(), "size": len(data)})
+        if r is None:
+            break
         reqs.append(f"hidden {off} {hexs(data)}")
         real.append(r)
     model = [" ".join(l.split()[:3]) if l.startswith("ok") else l for l in drv.ask(reqs)]
@@ -647,7 +687,14 @@ def run(ck: Check):
         meta.append({"kind": kind, "base": name, "edits": edits})
     nproc = min(16, os.cpu_count() or 4)
     t0 = time.time()
-    res = run_pool(tasks, nproc, wall_guard=3600)
+    # batches: once three timeouts were seen the search has its failing inputs; the rest is skipped
+    res, BATCH = [], 400
+    for lo in range(0, len(tasks), BATCH):
+        res += run_pool(tasks[lo:lo + BATCH], nproc, wall_guard=3600)
+        if sum(1 for o, _c in res if o == "timeout") >= 3:
+            ck.notes.append(f"search stopped after {len(res)} of {len(tasks)} inputs: three parses exceeded the limit")
+            break
+    tasks, meta = tasks[:len(res)], meta[:len(res)]
     wall = time.time() - t0
     outcomes, slow = {}, []
     for i, (out, cpu) in enumerate(res):
@@ -723,6 +770,27 @@ def replay(ck: Check, rp):
         for e in rp.get("errors", [])[:3]:
             print(e.get("message", "")[:600])
         return 0
+    if "op" in c:
+        from androguard.core import axml, dex
+        from harness.props.c06 import time_limit, Hang
+        data = bytes.fromhex(c["hex"])
+        cm = type("CM", (), {})()
+        cm.packer = dex.DalvikPacker(0x12345678)
+        b = io.BufferedReader(io.BytesIO(data))
+        b.seek(c.get("pos", 0))
+        calls = {"hdr": lambda: real_hdr(axml, data, c.get("start", 0)), "axml-walk": lambda: real_axml_walk(axml, data),
+                 "dbg": lambda: dex.DebugInfoItem(b, cm), "hidden": lambda: dex.HiddenApiClassDataItem(b, cm)}
+        print("replay", c["op"], "on", len(data), "bytes")
+        try:
+            with time_limit(5.0):
+                print("returned:", calls[c["op"]]())
+            return 0
+        except Hang:
+            print("does not return within 5 s")
+            return 1
+        except Exception as e:  # noqa
+            print("raised", type(e).__name__)
+            return 0
     kind = c["kind"]
     if "hex" in c:
         data = bytes.fromhex(c["hex"])
